@@ -42,13 +42,15 @@ var (
 	baseNames = []string{"Encode", "Decode", "Sort", "Hash"}
 	formats   = []string{"json", "gob"}
 	sizes     = []string{"1k", "2k", "10", "1Mi"}
+	// block sizes that tie numerically under different spellings (parseNum: 4k = 4K = 4000 = 4e3)
+	bsPool = []string{"4k", "4K", "4000", "4e3", "8k", "8000"}
 	unitPool  = []string{"ns/op", "B/op", "widgets", "MB/s", "allocs/op", "ns/frob"}
 	magPool   = []float64{100, 200, 1000, 3.5, 0, 12345678, 0.002}
 	noisePool = []float64{1, 1, 1, 1.01, 0.99, 1.1, 0.9, 1.5}
 
 	tablePool  = []string{".config", "goos", "pkg", "", ".config,.name", "commit", ".file", "goos,goarch", ".config@alpha"}
-	rowPool    = []string{".fullname", ".name", "/format", ".name,/size", ".fullname@alpha", "/size@num", "pkg,.name", ".name@alpha,/format", "/gomaxprocs", "/size@(1k 10 2k)"}
-	colPool    = []string{".file", "goos", "/format", "commit", ".file@alpha", "/format@(gob json)", "note", "pkg", "commit@num", "/size", ".name"}
+	rowPool    = []string{"/bs@num,.name", "/bs@num,/format", ".name@alpha,/bs@num", ".fullname", ".name", "/format", ".name,/size", ".fullname@alpha", "/size@num", "pkg,.name", ".name@alpha,/format", "/gomaxprocs", "/size@(1k 10 2k)"}
+	colPool    = []string{"/bs@num", "/bs@num,.file", ".file", "goos", "/format", "commit", ".file@alpha", "/format@(gob json)", "note", "pkg", "commit@num", "/size", ".name"}
 	ignorePool = []string{"", ".file", "commit", "goos,commit", "note", "/size", ".fullname", "pkg", ".config", "/format,/size", ".name"}
 	filterPool = []string{"*", ".name:Encode", "/format:json", "-.name:Sort", "goos:linux", ".unit:B/op", ".unit:(sec/op OR widgets)", "-/size:1k", ".file:a.txt OR .file:b.txt", "pkg:p/a AND -.name:Hash"}
 	alphaPool  = []string{"0.05", "0.01", "0.5", "1", "0", "0.2"}
@@ -80,6 +82,9 @@ func genCase(r *hx.Rand, big bool) *Case {
 		}
 		if r.Chance(1, 3) {
 			n += "/size=" + hx.Pick(r, sizes)
+		}
+		if r.Chance(1, 3) {
+			n += "/bs=" + hx.Pick(r, bsPool)
 		}
 		switch r.Intn(4) {
 		case 0:
@@ -128,9 +133,18 @@ func genCase(r *hx.Rand, big bool) *Case {
 		c.tag("counts")
 	}
 	exactUnit := ""
+	exactFile, exactBlock := r.Intn(nfiles), 0
 	if r.Chance(1, 3) {
 		exactUnit = hx.Pick(r, units)
 		c.tag("exact")
+		switch {
+		case nfiles > 1 && exactFile == nfiles-1:
+			c.tag("meta-last")
+		case nfiles > 1 && exactFile == 0:
+			c.tag("meta-first")
+		case nfiles > 1:
+			c.tag("meta-middle")
+		}
 	}
 	for fi := 0; fi < nfiles; fi++ {
 		var sb strings.Builder
@@ -160,7 +174,7 @@ func genCase(r *hx.Rand, big bool) *Case {
 			if bi > 0 {
 				c.tag("blocks")
 			}
-			if exactUnit != "" && (fi == 0 || r.Chance(1, 3)) && bi == 0 {
+			if exactUnit != "" && bi == exactBlock && (fi == exactFile || r.Chance(1, 5)) {
 				fmt.Fprintf(&sb, "Unit %s assume=exact\n", exactUnit)
 			}
 			if r.Chance(1, 10) {
@@ -294,6 +308,15 @@ func corpusCases() []*Case {
 		mk(nil, rep("BenchmarkA 10 100 ns/op", 6)+rep("BenchmarkB 10 250 ns/op", 9), rep("BenchmarkA 10 101 ns/op", 25)+rep("BenchmarkB 10 240 ns/op", 17)),
 		mk([]string{"-confidence", "0.99"}, rep("BenchmarkA 10 100 ns/op", 7)+rep("BenchmarkB 10 250 ns/op", 12)+rep("BenchmarkC 10 3 ns/op", 20),
 			rep("BenchmarkA 10 101 ns/op", 8)+rep("BenchmarkB 10 240 ns/op", 13)+rep("BenchmarkC 10 4 ns/op", 21)),
+		// unit metadata only in the FIRST of two files: it holds for the whole run
+		mk(nil, "Unit text-bytes assume=exact\n\nBenchmarkSize 1 100 text-bytes\n", "BenchmarkSize 1 105 text-bytes\n"),
+		// ... only in the middle file of three, with better=
+		mk(nil, "BenchmarkSize 1 100 text-bytes\n", "Unit text-bytes assume=exact better=lower\nBenchmarkSize 1 105 text-bytes\n", "BenchmarkSize 1 110 text-bytes\n"),
+		// numerically tied spellings in a non-last @num field: the order must still be total
+		mk([]string{"-row", "/bs@num,.name"}, rep("BenchmarkEncode/bs=4k 1 10 ns/op", 3)+rep("BenchmarkEncode/bs=4K 1 11 ns/op", 3)+rep("BenchmarkEncode/bs=4000 1 12 ns/op", 3)+
+			rep("BenchmarkEncode/bs=4e3 1 13 ns/op", 3)+rep("BenchmarkEncode/bs=8k 1 14 ns/op", 3)+rep("BenchmarkEncode/bs=8000 1 15 ns/op", 3)+rep("BenchmarkDecode/bs=4k 1 16 ns/op", 3)),
+		mk([]string{"-col", "/bs@num,.file", "-row", ".name"}, rep("BenchmarkEncode/bs=4k 1 10 ns/op", 3)+rep("BenchmarkEncode/bs=4K 1 11 ns/op", 3)+rep("BenchmarkEncode/bs=4000 1 12 ns/op", 3),
+			rep("BenchmarkEncode/bs=4e3 1 13 ns/op", 3)+rep("BenchmarkEncode/bs=4K 1 11 ns/op", 3)),
 		// exact assumption
 		mk([]string{"-col", "note"}, "Unit text-bytes assume=exact\nnote: before\n\nBenchmarkSize 1 100 text-bytes\nBenchmarkN 1 100 text-bytes\nBenchmarkN 1 101 text-bytes\n\nnote: after\n\nBenchmarkSize 1 105 text-bytes\nBenchmarkN 1 101 text-bytes\n"),
 	}
